@@ -35,6 +35,16 @@ DATE_POOL = [dt.datetime(2020, 1, 2), dt.datetime(1999, 12, 31, 23, 59, 59), dt.
              dt.datetime(2021, 6, 15, 8, 30), dt.datetime(2021, 6, 15, 8, 30, 0, 1)]
 
 
+NOTE_WORDS = ['call', 'back', 'on', 'Monday', 're', 'order', 'no', 'A17', 'client', 'said', 'ok', 'then', 'left', 'x2']
+
+
+def long_note(rng):
+    words = [rng.choice(NOTE_WORDS) for _ in range(rng.randint(52, 64))]
+    for _ in range(rng.choice([0, 1, 1, 2])):
+        words[rng.randrange(1, len(words))] = '\n' + rng.choice(NOTE_WORDS)
+    return ' '.join(words)
+
+
 def gen_cells(rng, fam, n):
     nullp = rng.choice([0, 0, 0, 0.15, 0.4, 1.0]) if fam in NULLABLE else 0
     cells = []
@@ -89,6 +99,9 @@ def gen_cells(rng, fam, n):
             elif fam == 'object-date':
                 d = d.date()
             cells.append(d)
+    if FAMILIES[fam] in ('string', 'other') and fam not in ('category', 'category-unused') and rng.random() < 0.04:
+        # free text: long multi-line notes (more than 99 runs of letters / blanks each, where rexpy falls back to '.')
+        cells = [None if c is None else long_note(rng) for c in cells]
     if fam == 'string' or fam == 'object-str':
         # many categories sometimes
         if rng.random() < 0.15:
